@@ -6,20 +6,60 @@ from .domutil import DOM
 REF_VARIANT = "rbx_types::variant::Variant::Ref"
 
 
+def _for_loops(n, into_closures=False):
+    return [(x, core.as_for(x)) for x in core.walk(n, into_closures=into_closures) if core.as_for(x) is not None and x.get("k") != "DropTemps"]
+
+
+def pat_lids(p):
+    out = []
+    stack = [p]
+    while stack:
+        x = stack.pop()
+        if isinstance(x, dict):
+            if x.get("k") == "Binding" and "lid" in x:
+                out.append(x["lid"])
+            stack.extend(v for v in x.values() if isinstance(v, (dict, list)))
+        elif isinstance(x, list):
+            stack.extend(x)
+    return out
+
+
+def _chain(n):
+    """method names applied along a receiver chain, innermost first, and the innermost receiver"""
+    names = []
+    n = core.strip(n)
+    while n.get("k") == "MethodCall":
+        names.append(n["m"])
+        n = core.strip(n["recv"])
+    return list(reversed(names)), n
+
+
+def _clone_binding(pat, iterable):
+    """lid of the loop variable that holds the *clone* (the value of ref_rewrites)"""
+    names, _ = _chain(iterable)
+    if pat.get("k") == "Tuple" and len(pat.get("pats", [])) == 2 and pat["pats"][1].get("k") == "Binding":
+        return pat["pats"][1]["lid"]
+    if pat.get("k") == "Binding" and ("values" in names or "into_values" in names):
+        return pat["lid"]
+    if pat.get("k") in ("Ref", "Deref") and isinstance(pat.get("p"), dict):
+        return _clone_binding(pat["p"], iterable)
+    return None
+
+
 def rule_rule(c, prog):
     R = "C11.rule"
     c.rule(R, "rewrite_refs: per Ref value — mapped if in the cloned set (A); else kept iff the destination contained it before rewriting (B); else null; non-Ref values untouched; existing set computed before any rewrite, from dest.instances membership")
     fn = prog.fn(DOM + "CloneContext::rewrite_refs")
-    loops = [(n, core.as_for(n)) for n in core.walk_fn(fn, into_closures=False) if core.as_for(n) is not None and n.get("k") != "DropTemps"]
-    outer = [(n, f) for n, f in loops if core.place_root(f[1])[1][:1] == ["ref_rewrites"]]
+    loops = _for_loops(fn.body)
+    outer = [(n, f) for n, f in loops if "ref_rewrites" in core.place_root(f[1])[1]]
     if len(outer) != 2:
         raise core.AnchorMissing(f"rewrite_refs: expected two loops over self.ref_rewrites, found {len(outer)}")
     c.ok(R, "loops-over-ref_rewrites", 2)
-    # role: the `existing` set = the local that receives insert() in loop 1
+    # role: the `existing` set = the set local that receives insert() / extend() in loop 1
     l1, l2 = outer[0][1], outer[1][1]
     existing = None
     for n in core.walk(l1[2]):
-        if n.get("k") == "MethodCall" and n["m"] == "insert" and core.callee_generic(n).startswith("std::collections::hash::set::HashSet"):
+        if n.get("k") == "MethodCall" and n["m"] in ("insert", "extend") and "HashSet" in (core.callee_generic(n) or "") + n["recv"].get("ty", "") + n["recv"].get("aty", ""):
             r = core.strip(n["recv"])
             if r.get("res") == "local":
                 existing = r["lid"]
@@ -30,27 +70,36 @@ def rule_rule(c, prog):
         c.violation(R, "loop1|assign", "the first pass of rewrite_refs assigns values: the set of pre-existing destination refs must be complete before any rewrite", core.loc(outer[0][0]), instance="loop1:read-only")
     else:
         c.ok(R, "loop1:read-only")
+    dest_types = [prm for prm in fn.params if "WeakDom" in (prm.get("ty") or "")]
+    dest_name = dest_types[0].get("name") if dest_types else "dest"
 
     def role(n):
         """name a condition by role, independent of local names"""
         n0 = core.strip(n)
         if n0.get("k") == "LetExpr":
             pat = n0["pat"]
+            while pat.get("k") in ("Ref", "Deref") and isinstance(pat.get("p"), dict):
+                pat = pat["p"]
             init = core.strip(n0["init"])
             if pat.get("def") == REF_VARIANT:
                 return "V"
-            if pat.get("def") == "core::option::Option::Some" and init.get("k") == "MethodCall" and init["m"] == "get" and core.place_root(init["recv"])[1][-1:] == ["ref_rewrites"]:
-                return "A"
+            if init.get("k") == "MethodCall" and init["m"] == "get" and core.place_root(init["recv"])[1][-1:] == ["ref_rewrites"]:
+                if pat.get("def") == "core::option::Option::Some":
+                    return "A"
+                if pat.get("def") == "core::option::Option::None" or core.pat_str(pat).endswith("None"):
+                    return "!A"
             return "let:" + core.pat_str(pat)
         if n0.get("k") == "MethodCall":
             recv = core.strip(n0["recv"])
             if n0["m"] == "contains" and recv.get("lid") == existing:
                 return "B"
-            if n0["m"] == "contains_key" and core.place_root(n0["recv"]) == ("dest", ["instances"]):
+            if n0["m"] == "contains_key" and core.place_root(n0["recv"]) == (dest_name, ["instances"]):
                 return "D"
             if n0["m"] == "contains_key" and core.place_root(n0["recv"])[1][-1:] == ["ref_rewrites"]:
                 return "A"
         return "?" + core.fingerprint(n0, 4)
+
+    mode = {"closure": False}
 
     def eff(n):
         n0 = core.strip(n)
@@ -65,25 +114,58 @@ def rule_rule(c, prog):
             return "value := ?" + core.fingerprint(rhs, 4)
         if n0.get("k") == "MethodCall" and n0["m"] == "insert" and core.strip(n0["recv"]).get("lid") == existing:
             return "existing += value"
+        if mode["closure"] and n0.get("k") == "Call" and n0["f"].get("def") == "core::option::Option::Some":
+            return "existing += value"     # filter_map closure feeding `existing.extend(..)`
         return core.fingerprint(n0, 4)
 
     tb = decision.Tabler(namer=role, effect_namer=eff)
-    # innermost body of loop 2 / loop 1: the for over properties.values(_mut)
+
     def inner_body(lp):
-        inner = [core.as_for(n) for n in core.walk(lp[2]) if core.as_for(n) is not None and n.get("k") != "DropTemps"]
-        if len(inner) != 1:
-            raise core.AnchorMissing("rewrite_refs: expected one inner loop over the instance's property values")
-        root, path = core.place_root(inner[0][1])
-        if "properties" not in path:
-            raise core.AnchorMissing("rewrite_refs: inner loop does not range over instance.properties")
-        return inner[0]
-    i1, i2 = inner_body(l1), inner_body(l2)
-    t2 = decision.table(tb.paths(i2[2]))
-    t1 = decision.table(tb.paths(i1[2]))
+        """(kind, body) of the per-property-value code of a pass: the body of the inner `for` over
+        properties.values(_mut)(), or the closure of `existing.extend(<properties.values()>.filter_map(closure))`"""
+        inner = [f for _, f in _for_loops(lp[2])]
+        if len(inner) == 1:
+            root, path = core.place_root(inner[0][1])
+            if "properties" not in path:
+                raise core.AnchorMissing("rewrite_refs: inner loop does not range over instance.properties")
+            return "for", inner[0][2]
+        if not inner:
+            for n in core.walk(lp[2]):
+                if n.get("k") == "MethodCall" and n["m"] == "extend" and core.strip(n["recv"]).get("lid") == existing and n["args"]:
+                    names, base = _chain(n["args"][0])
+                    a = core.strip(n["args"][0])
+                    if names and names[-1] == "filter_map" and "properties" in core.place_root(core.strip(a["recv"]))[1] and set(names[:-1]) <= {"values", "iter"}:
+                        clo = core.strip(a["args"][0])
+                        if clo.get("k") == "Closure":
+                            return "closure", clo["body"]
+        raise core.AnchorMissing("rewrite_refs: expected one inner loop (or extend(filter_map)) over the instance's property values")
+
+    def paths_of(kind, body):
+        mode["closure"] = kind == "closure"
+        try:
+            return tb.paths(body)
+        finally:
+            mode["closure"] = False
+
+    k1, b1 = inner_body(l1)
+    k2, b2 = inner_body(l2)
+    if k2 != "for":
+        raise core.AnchorMissing("rewrite_refs: the rewriting pass must be a loop over properties.values_mut()")
 
     def norm(t):
-        return {frozenset(k): sorted(set(v)) for k, v in t.items()}
-    got2 = norm(t2)
+        out = {}
+        for k, v in t.items():
+            cs = set()
+            for a, val in k:
+                if a == "!A":
+                    a, val = "A", not val
+                cs.add((a, val))
+            if any((a, not val) in cs for a, val in cs):
+                continue
+            out.setdefault(frozenset(cs), set()).update(v)
+        return {k: sorted(v) for k, v in out.items()}
+    got2 = norm(decision.table(paths_of(k2, b2)))
+    got1 = norm(decision.table(paths_of(k1, b1)))
     want2 = {
         frozenset({("V", False)}): [((), None)],
         frozenset({("V", True), ("A", True)}): [(("value := mapped",), None)],
@@ -91,37 +173,36 @@ def rule_rule(c, prog):
         frozenset({("V", True), ("A", False), ("B", True)}): [((), None)],
     }
     c.sample({"rule": R, "extracted_table_pass2": {" & ".join(sorted(("" if v else "!") + a for a, v in k)): str(v) for k, v in got2.items()}})
-    if got2 == want2:
+    same, diff = decision.same_function(got2, want2)
+    if same:
         c.ok(R, "pass2:table", 4)
     else:
-        diff = [(sorted(k), got2.get(k), want2.get(k)) for k in set(got2) | set(want2) if got2.get(k) != want2.get(k)]
         c.violation(R, "pass2|table", f"the Ref rewrite decision table differs from the documented three-way rule; differing rows (conds, got, want): {diff}", core.loc(outer[1][0]), instance="pass2:table")
-    got1 = norm(t1)
     want1 = {
         frozenset({("V", False)}): [((), None)],
         frozenset({("V", True), ("D", True)}): [(("existing += value",), None)],
         frozenset({("V", True), ("D", False)}): [((), None)],
     }
-    if got1 == want1:
+    same, diff = decision.same_function(got1, want1)
+    if same:
         c.ok(R, "pass1:table", 3)
     else:
-        diff = [(sorted(k), got1.get(k), want1.get(k)) for k in set(got1) | set(want1) if got1.get(k) != want1.get(k)]
         c.violation(R, "pass1|table", f"the pre-existing-refs pass differs from `value in dest.instances => remember`; rows (conds, got, want): {diff}", core.loc(outer[0][0]), instance="pass1:table")
     # both passes look up the *clone* (value of ref_rewrites) in dest
     for idx, lp in enumerate((l1, l2)):
-        pat = lp[0]
-        ok = pat.get("k") == "Tuple" and len(pat["pats"]) == 2 and pat["pats"][1].get("k") == "Binding"
+        lid = _clone_binding(lp[0], lp[1])
         used = None
-        if ok:
-            lid = pat["pats"][1]["lid"]
+        if lid is not None:
             for n in core.walk(lp[2]):
-                if n.get("k") == "MethodCall" and n["m"] in ("get_by_ref", "get_by_ref_mut") and core.place_root(n["recv"])[0] == "dest":
-                    a = core.strip(n["args"][0])
-                    used = a.get("lid") == lid
-        if ok and used:
+                if n.get("k") == "MethodCall" and n["m"] in ("get_by_ref", "get_by_ref_mut", "get", "get_mut") and core.place_root(n["recv"])[0] == dest_name and n["args"]:
+                    if any(x.get("k") == "Path" and x.get("lid") == lid for x in core.walk(n["args"][0])):
+                        used = True
+                    elif used is None:
+                        used = False
+        if lid is not None and used:
             c.ok(R, f"pass{idx + 1}:iterates-clones")
         else:
-            c.violation(R, f"pass{idx + 1}|target", f"pass {idx + 1} of rewrite_refs does not look up the cloned instance (the map's value) in `dest`", core.loc(outer[idx][0]), instance=f"pass{idx + 1}:iterates-clones")
+            c.violation(R, f"pass{idx + 1}|target", f"pass {idx + 1} of rewrite_refs does not look up the cloned instance (the map's value) in `{dest_name}`", core.loc(outer[idx][0]), instance=f"pass{idx + 1}:iterates-clones")
 
 
 def rule_copy(c, prog):
@@ -133,14 +214,30 @@ def rule_copy(c, prog):
     for n in calls:
         names.setdefault(core.callee_generic(n), []).append(n)
     IB = "rbx_dom_weak::instance::InstanceBuilder::"
+    # roles by type / data flow, not by local name
+    plids = core.param_lids(fn)
+    src_p = [lid for nm, (lid, ty) in plids.items() if "WeakDom" in (ty or "")]
+    ref_p = [lid for nm, (lid, ty) in plids.items() if (ty or "").endswith("referent::Ref")]
+    if len(src_p) != 1 or len(ref_p) != 1:
+        raise core.AnchorMissing(f"clone_ref_as_builder: expected one WeakDom and one Ref parameter, found {plids}")
+    source_lid, orig_lid = src_p[0], ref_p[0]
+    inst_lid = None
+    src_lookups = [n for n in calls if core.callee_generic(n) == DOM + "WeakDom::get_by_ref"]
+    for st in core.walk_lets(fn.body):
+        if "init" in st and any(x in src_lookups for x in core.walk(st["init"])) and st["pat"].get("k") == "Binding":
+            inst_lid = st["pat"]["lid"]
+    if len(src_lookups) == 1 and core.place_root_lid(src_lookups[0]["recv"])[0] == source_lid and core.strip(src_lookups[0]["args"][0]).get("lid") == orig_lid and inst_lid is not None:
+        c.ok(R, "copy:source-lookup")
+    else:
+        c.violation(R, "copy|source", "clone_ref_as_builder does not read the instance `original_ref` from `source`", fn.sp, instance="copy:source-lookup")
 
-    def arg_root(n, i=0):
-        a = n["args"][i] if n.get("k") == "MethodCall" else n["args"][i]
-        return core.place_root(a)
+    def from_inst(n, field):
+        lid, path = core.place_root_lid(n)
+        return lid == inst_lid and inst_lid is not None and path[:1] == [field]
     checks = [
-        ("new(class)", IB + "new", lambda n: arg_root(n) == ("instance", ["class"])),
-        ("with_name(name)", IB + "with_name", lambda n: arg_root(n)[0] == "instance" and arg_root(n)[1][:1] == ["name"]),
-        ("with_properties(properties.clone())", IB + "with_properties", lambda n: arg_root(n)[0] == "instance" and arg_root(n)[1][:1] == ["properties"]),
+        ("new(class)", IB + "new", lambda n: from_inst(n["args"][0], "class")),
+        ("with_name(name)", IB + "with_name", lambda n: from_inst(n["args"][0], "name")),
+        ("with_properties(properties.clone())", IB + "with_properties", lambda n: from_inst(n["args"][0], "properties")),
     ]
     for label, path, pred in checks:
         ns = names.get(path, [])
@@ -151,22 +248,30 @@ def rule_copy(c, prog):
     for bad in ("with_referent", "with_class", "set_class", "set_name", "with_property", "add_property", "with_child", "with_children", "add_child", "add_children"):
         if IB + bad in names:
             c.violation(R, f"copy|{bad}", f"clone_ref_as_builder calls InstanceBuilder::{bad}: the copy must have a fresh referent and exactly the source's class/name/properties; children are cloned through the queue", core.loc(names[IB + bad][0]))
-    # instance comes from source.get_by_ref(original_ref)
-    src = [n for n in calls if core.callee_generic(n) == DOM + "WeakDom::get_by_ref"]
-    if len(src) == 1 and core.place_root(src[0]["recv"])[0] == "source" and core.strip(src[0]["args"][0]).get("name") == "original_ref":
-        c.ok(R, "copy:source-lookup")
-    else:
-        c.violation(R, "copy|source", "clone_ref_as_builder does not read the instance `original_ref` from `source`", fn.sp, instance="copy:source-lookup")
+    # the builder local and the local holding its fresh referent
+    builder_lids = set()
+    for st in core.walk_lets(fn.body):
+        if "init" in st and st["pat"].get("k") == "Binding" and any(x.get("k") == "Call" and core.callee_generic(x) == IB + "new" for x in core.walk(st["init"])):
+            builder_lids.add(st["pat"]["lid"])
+    new_ref_lids = set()
+    for st in core.walk_lets(fn.body):
+        if "init" in st and st["pat"].get("k") == "Binding":
+            lid, path = core.place_root_lid(st["init"])
+            if lid in builder_lids and path == ["referent"]:
+                new_ref_lids.add(st["pat"]["lid"])
+
+    def is_new_ref(a):
+        a = core.strip(a)
+        if a.get("lid") in new_ref_lids:
+            return True
+        lid, path = core.place_root_lid(a)
+        return lid in builder_lids and path == ["referent"]
     # ref_rewrites.insert(original_ref, new_ref)
     ins = [n for n in calls if n.get("k") == "MethodCall" and n["m"] == "insert" and core.place_root(n["recv"])[1][-1:] == ["ref_rewrites"]]
     ok = False
     if len(ins) == 1:
-        a0, a1 = core.strip(ins[0]["args"][0]), core.strip(ins[0]["args"][1])
-        new_ref_lid = None
-        for st in fn.body["b"]["stmts"]:
-            if st["k"] == "Let" and "init" in st and core.place_root(st["init"]) == ("builder", ["referent"]):
-                new_ref_lid = st["pat"].get("lid")
-        ok = a0.get("name") == "original_ref" and a1.get("lid") == new_ref_lid and new_ref_lid is not None
+        a0 = core.strip(ins[0]["args"][0])
+        ok = a0.get("lid") == orig_lid and is_new_ref(ins[0]["args"][1])
     if ok:
         # and unconditionally: the map is both the list of copies to visit and the translation table
         for n_ in core.walk_fn(fn):
@@ -176,15 +281,38 @@ def rule_copy(c, prog):
         c.ok(R, "copy:records-mapping")
     else:
         c.violation(R, "copy|mapping", "clone_ref_as_builder does not record original_ref -> builder.referent in ref_rewrites unconditionally (a Ref to a clone that was not recorded is left pointing at the original, or nulled)", fn.sp, instance="copy:records-mapping")
-    # children enqueued
-    fl = [core.as_for(n) for n in core.walk_fn(fn) if core.as_for(n) is not None and n.get("k") != "DropTemps"]
+    # children enqueued: `for child in instance.children… { queue.push_back((new_ref, child)) }` or
+    # `queue.extend(instance.children….map(|child| (new_ref, child)))`
+
+    def pair_ok(t, child_lids):
+        t = core.strip(t)
+        if not (t.get("k") == "Tup" and len(t["args"]) == 2 and is_new_ref(t["args"][0])):
+            return False
+        return any(x.get("k") == "Path" and x.get("lid") in child_lids for x in core.walk(t["args"][1]))
     ok = False
-    if len(fl) == 1 and core.place_root(fl[0][1])[0] == "instance" and "children" in core.place_root(fl[0][1])[1]:
-        for n in core.walk(fl[0][2]):
-            if n.get("k") == "MethodCall" and n["m"] == "push_back" and core.place_root(n["recv"])[1][-1:] == ["queue"]:
-                t = core.strip(n["args"][0])
-                if t.get("k") == "Tup" and len(t["args"]) == 2 and core.strip(t["args"][0]).get("lid") == new_ref_lid:
+    for _n, fl in _for_loops(fn.body):
+        lid, path = core.place_root_lid(fl[1])
+        if lid == inst_lid and "children" in path and set(p for p in path if p.startswith(".")) <= {".iter()", ".into_iter()", ".copied()", ".cloned()"}:
+            child_lids = set(pat_lids(fl[0]))
+            for n in core.walk(fl[2]):
+                if n.get("k") == "MethodCall" and n["m"] == "push_back" and core.place_root(n["recv"])[1][-1:] == ["queue"] and pair_ok(n["args"][0], child_lids):
                     ok = True
+    for n in calls:
+        if n.get("k") == "MethodCall" and n["m"] == "extend" and core.place_root(n["recv"])[1][-1:] == ["queue"] and n["args"]:
+            chain, base = _chain(n["args"][0])
+            a = core.strip(n["args"][0])
+            lid, path = core.place_root_lid(a)
+            if lid == inst_lid and "children" in path and chain and chain[-1] == "map" and set(chain[:-1]) <= {"iter", "into_iter", "copied", "cloned"}:
+                clo = core.strip(a["args"][0])
+                if clo.get("k") == "Closure":
+                    child_lids = set()
+                    for prm in clo.get("params", []):
+                        child_lids.update(pat_lids(prm.get("pat") or prm))
+                    body = core.strip(clo["body"])
+                    while body.get("k") == "Block" and not body["b"]["stmts"] and "expr" in body["b"]:
+                        body = core.strip(body["b"]["expr"])
+                    if pair_ok(body, child_lids):
+                        ok = True
     if ok:
         c.ok(R, "copy:children-enqueued")
     else:
